@@ -52,3 +52,13 @@ package discovery
 //@   prop C15
 //@   modifies nothing
 //@   ensures[key-is-exactly-method-and-url] result == pairKey(endpoint.Method, sharedDiscovery.EndpointDelimiter, endpoint.URL)
+
+// ---------------------------------------------------------------- per-batch extraction: every record is counted under exactly its status code
+//@ func countStatusCodes
+//@   prop C15
+//@   allocates map
+//@   modifies nothing
+//@   loop 1 modifies mapof(res)
+//@   loop 1 invariant[every-record-counted-once] res != nil && msum(res) == idx1 && forall(c, int, in(c, res) ==> res[c] >= 1)
+//@   ensures[status-counts-add-up-to-the-records] result != nil && msum(result) == len(records)
+//@   ensures[fresh] !old(allocated(result))
